@@ -81,6 +81,7 @@ def var(name):
 ZERO = lift(0)
 ONE = lift(1)
 
+UF_IMPL = {}      # name -> python callable giving the concrete value of an uninterpreted function (for validation)
 CONSTS_READ = {}   # exact Fraction -> algebraic reading used (recorded for evidence)
 
 
@@ -185,6 +186,7 @@ def to_float(n, env, memo=None):
         elif op == 'and': r = bool(memo[a[0]]) and bool(memo[a[1]])
         elif op == 'or': r = bool(memo[a[0]]) or bool(memo[a[1]])
         elif op == 'true': r = True
+        elif op == 'uf': r = UF_IMPL[a[0]](*[memo[q] for q in a[1:]])
         elif op == 'even': r = int(memo[a[0]]) % 2 == 0
         elif op == 'ite': r = memo[a[1]] if memo[a[0]] else memo[a[2]]
         else: raise NotImplementedError(op)
@@ -529,4 +531,130 @@ def linear_form(n, basis, memo_sup=None):
             memo[x] = memo[a[0]]
         else:
             raise ValueError(f'not linear: {op}')
+    return memo[n]
+
+
+# ---------------------------------------------------------------- normal form over square-root generators
+SQRT_GEN = {}
+
+
+def sqrt_normal(n):
+    """n as a polynomial in its square-root sub-terms with each generator at power <= 1 (r*r is replaced by the radicand):
+    {tuple(sorted generator ids): coefficient node}.  Raises NotImplementedError when a denominator is not a monomial."""
+    memo = {}
+
+    def mul_terms(A, Bt):
+        out = {}
+        for ma, ca in A.items():
+            for mb, cb in Bt.items():
+                sa, sb = set(ma), set(mb)
+                c = _mul(ca, cb)
+                for g in sa & sb:
+                    c = _mul(c, SQRT_GEN[g].args[0])
+                m = tuple(sorted(sa ^ sb))
+                out[m] = _add(out[m], c) if m in out else c
+        return out
+
+    for x in topo([n]):
+        op = x.op
+        a = x.args
+        if op == 'sqrt':
+            SQRT_GEN[x.nid] = x
+            r = {(x.nid,): ONE}
+        elif op == 'const':
+            sq = algebraic_sqrt(a[0])
+            if sq is not None:
+                g = Node('sqrt', lift(sq[1]))
+                SQRT_GEN[g.nid] = g
+                r = {(g.nid,): lift(sq[0])}
+            else:
+                r = {(): x}
+        elif op in ('add', 'sub'):
+            r = dict(memo[a[0]])
+            for m, c in memo[a[1]].items():
+                if op == 'add':
+                    r[m] = _add(r[m], c) if m in r else c
+                else:
+                    r[m] = _sub(r[m], c) if m in r else _neg(c)
+        elif op == 'neg':
+            r = {m: _neg(c) for m, c in memo[a[0]].items()}
+        elif op == 'mul':
+            r = mul_terms(memo[a[0]], memo[a[1]])
+        elif op == 'div':
+            den = {m: c for m, c in memo[a[1]].items() if c is not ZERO}
+            if len(den) != 1:
+                raise NotImplementedError('sqrt_normal: non-monomial denominator')
+            (m, c), = den.items()
+            inv_c = c
+            for g in m:
+                inv_c = _mul(inv_c, SQRT_GEN[g].args[0])
+            r = {k: _div(v, inv_c) for k, v in mul_terms(memo[a[0]], {m: ONE}).items()}
+        elif op == 'pow':
+            e = a[1]
+            base = memo[a[0]]
+            if e < 0:
+                den = {m: c for m, c in base.items() if c is not ZERO}
+                if len(den) != 1:
+                    raise NotImplementedError('sqrt_normal: non-monomial denominator')
+                (m, c), = den.items()
+                inv_c = c
+                for g in m:
+                    inv_c = _mul(inv_c, SQRT_GEN[g].args[0])
+                base = {m: _div(ONE, inv_c)}
+                e = -e
+            r = {(): ONE}
+            for _ in range(e):
+                r = mul_terms(r, base)
+        else:
+            r = {(): x}
+        memo[x] = r
+    return memo[n]
+
+
+# ---------------------------------------------------------------- rational-function normal form
+def to_ratfun(n, memo=None):
+    """(num, den) as Poly with Fraction coefficients; no reduction to lowest terms.  sqrt / abs / ite are not supported."""
+    memo = {} if memo is None else memo
+    one = Poly.const(1)
+    for x in topo([n]):
+        if x in memo:
+            continue
+        op = x.op
+        a = x.args
+        if op == 'var': r = (Poly.var(a[0]), one)
+        elif op == 'const':
+            if algebraic_sqrt(a[0]) is not None:
+                raise NotImplementedError('ratfun: irrational constant')
+            r = (Poly.const(algebraic(a[0])), one)
+        elif op in ('add', 'sub'):
+            (n1, d1), (n2, d2) = memo[a[0]], memo[a[1]]
+            if d1 == d2:
+                r = ((n1 + n2) if op == 'add' else (n1 - n2), d1)
+            else:
+                r = ((n1 * d2 + n2 * d1) if op == 'add' else (n1 * d2 - n2 * d1), d1 * d2)
+        elif op == 'mul':
+            (n1, d1), (n2, d2) = memo[a[0]], memo[a[1]]
+            r = (n1 * n2, d1 * d2)
+        elif op == 'div':
+            (n1, d1), (n2, d2) = memo[a[0]], memo[a[1]]
+            r = (n1 * d2, d1 * n2)
+        elif op == 'neg':
+            n1, d1 = memo[a[0]]
+            r = (-n1, d1)
+        elif op == 'pow':
+            n1, d1 = memo[a[0]]
+            e = a[1]
+            if e < 0:
+                n1, d1, e = d1, n1, -e
+            rn, rd = one, one
+            for _ in range(e):
+                rn, rd = rn * n1, rd * d1
+            r = (rn, rd)
+        else:
+            raise NotImplementedError(f'ratfun: {op}')
+        # cheap normalisation: constant denominators are folded into the numerator
+        c = r[1].as_const()
+        if c is not None and c != 0 and c != 1:
+            r = (r[0].scale(1 / c), one)
+        memo[x] = r
     return memo[n]
